@@ -211,3 +211,41 @@ func TestC15Durations(t *testing.T) {
 	rec.SetExhaustive(true)
 	rec.Sample(map[string]interface{}{"bytes": "014530", "decoded": "1h45m30s"})
 }
+
+// TestC15ThroughDemuxer: the same conversions observed through the public API: a TOT and an EIT event for every day.
+func TestC15ThroughDemuxer(t *testing.T) {
+	rec := obs.NewRecorder("C15", "through_demuxer", "every MJD day 15079..65535 carried as TOT UTC_time and as EIT event start_time (time of day and BCD duration varying with the day) in reference-encoded sections sent through the Demuxer: DemuxerData.TOT.UTCTime, EIT StartTime and Duration must be the calendar values; distinct by construction")
+	defer rec.Flush()
+	shard, nshards := obs.Shard()
+	n := int64(0)
+	for mjd := mjdMin; mjd <= mjdMax; mjd++ {
+		if mjd%nshards != shard {
+			continue
+		}
+		sod := (mjd * 7919) % 86400
+		dur := time.Duration((mjd*31)%360000) * time.Second
+		body := []byte{byte(mjd >> 8), byte(mjd), ref.BCD2(sod / 3600), ref.BCD2(sod / 60 % 60), ref.BCD2(sod % 60), 0xf0, 0x00}
+		eitBody := []byte{0, 1, 0, 2, 0, 0x4e, 0x12, 0x34, byte(mjd >> 8), byte(mjd), ref.BCD2(sod / 3600), ref.BCD2(sod / 60 % 60), ref.BCD2(sod % 60)}
+		eitBody = append(eitBody, ref.DurationHMS(dur)...)
+		eitBody = append(eitBody, 0x80, 0x00)
+		stream := append(fixedSectionStream(0x73, 0x14, body, false), fixedSectionStream(0x4e, 0x12, eitBody, false)...)
+		res := demuxAll(stream)
+		want := time.Unix(ref.UnixFromDVB(mjd, sod), 0).UTC()
+		okTOT, okEIT := false, false
+		for _, it := range res.items {
+			if it.TOT != nil && it.TOT.UTCTime.Equal(want) {
+				okTOT = true
+			}
+			if it.EIT != nil && len(it.EIT.Events) == 1 && it.EIT.Events[0].StartTime.Equal(want) && it.EIT.Events[0].Duration == dur {
+				okEIT = true
+			}
+		}
+		if !okTOT || !okEIT || len(res.errs) > 0 {
+			t.Fatalf("MJD %d %02d:%02d:%02d duration %v: TOT ok=%v EIT ok=%v errors=%s items=%s", mjd, sod/3600, sod/60%60, sod%60, dur, okTOT, okEIT, errStrings(res.errs), obs.Trunc(obs.Canon(res.items), 600))
+		}
+		n++
+	}
+	rec.Enumerated(n)
+	rec.SetExhaustive(true)
+	rec.Sample(map[string]interface{}{"days": n, "example": "MJD 49273 -> 1993-10-13"})
+}
